@@ -233,10 +233,7 @@ def _rdf_nbins(text, fn):
     raise Untranslatable("n_bins = int(<expr>) not found")
 
 
-def build_formulas():
-    parts = ["(* GENERATED by harness/props/C16.py:translate from /repo -- do not edit. *)",
-             "From Coq Require Import QArith.", "Local Open Scope Q_scope.", ""]
-    # --- Karplus
+def blk_karplus():
     text = _src("mdtraj/nmr/scalar_couplings.py")
     tree = ast.parse(text)
     fn = _find_func(tree, "_J3_function")
@@ -244,27 +241,30 @@ def build_formulas():
     if len(rets) != 1:
         raise Untranslatable("_J3_function body")
     e = py_to_q(rets[0].value, text, {"A": "A", "B": "B", "C": "C", "np.cos(phi + phi0)": "c"})
-    parts += ["(* mdtraj/nmr/scalar_couplings.py:_J3_function with c := cos(phi + phi0) *)",
-              "Definition j3_function (A B C c : Q) : Q := %s." % e, ""]
-    # --- RDF
+    return ["(* mdtraj/nmr/scalar_couplings.py:_J3_function with c := cos(phi + phi0) *)",
+            "Definition j3_function (A B C c : Q) : Q := %s." % e]
+
+
+def blk_rdf():
     text = _src("mdtraj/geometry/rdf.py")
     tree = ast.parse(text)
-    for fname, pre in (("compute_rdf", "rdf"),):
-        fn = _find_func(tree, fname)
-        at = {"np.pi": "pi", "np.power(edges[1:], 3)": "(hi ^ 3)", "np.power(edges[:-1], 3)": "(lo ^ 3)",
-              "edges[1:]": "hi", "edges[:-1]": "lo"}
-        v = py_to_q(_find_assign(fn, "V"), text, at)
-        r = py_to_q(_find_assign(fn, "r"), text, at)
-        norm = py_to_q(_find_assign(fn, "norm"), text,
-                       {"len(pairs)": "npairs", "np.sum(1.0 / traj.unitcell_volumes)": "sum_inv_vol", "V": "V"})
-        nb = _rdf_nbins(text, fn)
-        parts += ["(* mdtraj/geometry/rdf.py:%s *)" % fname,
-                  "Definition %s_shell_volume (pi lo hi : Q) : Q := %s." % (pre, v),
-                  "Definition %s_bin_centre (lo hi : Q) : Q := %s." % (pre, r),
-                  "Definition %s_norm (npairs sum_inv_vol V : Q) : Q := %s." % (pre, norm),
-                  "(* n_bins = int(<this>) when n_bins is not given *)",
-                  "Definition %s_nbins_quotient (r0 r1 bw : Q) : Q := %s." % (pre, nb), ""]
-    # --- density
+    fn = _find_func(tree, "compute_rdf")
+    at = {"np.pi": "pi", "np.power(edges[1:], 3)": "(hi ^ 3)", "np.power(edges[:-1], 3)": "(lo ^ 3)",
+          "edges[1:]": "hi", "edges[:-1]": "lo"}
+    v = py_to_q(_find_assign(fn, "V"), text, at)
+    r = py_to_q(_find_assign(fn, "r"), text, at)
+    norm = py_to_q(_find_assign(fn, "norm"), text,
+                   {"len(pairs)": "npairs", "np.sum(1.0 / traj.unitcell_volumes)": "sum_inv_vol", "V": "V"})
+    nb = _rdf_nbins(text, fn)
+    return ["(* mdtraj/geometry/rdf.py:compute_rdf *)",
+            "Definition rdf_shell_volume (pi lo hi : Q) : Q := %s." % v,
+            "Definition rdf_bin_centre (lo hi : Q) : Q := %s." % r,
+            "Definition rdf_norm (npairs sum_inv_vol V : Q) : Q := %s." % norm,
+            "(* n_bins = int(<this>) when n_bins is not given *)",
+            "Definition rdf_nbins_quotient (r0 r1 bw : Q) : Q := %s." % nb]
+
+
+def blk_density():
     text = _src("mdtraj/geometry/thermodynamic_properties.py")
     tree = ast.parse(text)
     fn = _find_func(tree, "density")
@@ -276,10 +276,12 @@ def build_formulas():
         raise Untranslatable("density: expected two assignments to densities")
     d1 = py_to_q(hits[0].value, text, {"mass": "mass", "volume_trace": "volume"})
     d2 = py_to_q(hits[1].value, text, {"densities": "(%s)" % d1, "conversion": "density_conversion"})
-    parts += ["(* mdtraj/geometry/thermodynamic_properties.py:density *)",
-              "Definition density_conversion : Q := %s." % qlit(_const_fraction(conv, text)),
-              "Definition density_formula (mass volume : Q) : Q := %s." % d2, ""]
-    # --- shape descriptors as functions of the principal moments pm[:,0] <= pm[:,1] <= pm[:,2]
+    return ["(* mdtraj/geometry/thermodynamic_properties.py:density *)",
+            "Definition density_conversion : Q := %s." % qlit(_const_fraction(conv, text)),
+            "Definition density_formula (mass volume : Q) : Q := %s." % d2]
+
+
+def blk_shape():
     text = _src("mdtraj/geometry/shape.py")
     tree = ast.parse(text)
     at = {"pm[:, 0]": "l0", "pm[:, 1]": "l1", "pm[:, 2]": "l2",
@@ -288,16 +290,66 @@ def build_formulas():
     b = py_to_q(_find_assign(_find_func(tree, "asphericity"), "b"), text, at)
     c = py_to_q(_find_assign(_find_func(tree, "acylindricity"), "c"), text, at)
     k = py_to_q(_find_assign(_find_func(tree, "relative_shape_anisotropy"), "kappa2"), text, at)
-    gt = _find_func(tree, "compute_gyration_tensor")
-    rets = [n for n in gt.body if isinstance(n, ast.Return)]
-    if len(rets) != 1 or ast.unparse(rets[0].value) != "np.einsum('...ji,...jk->...ik', xyz, xyz) / traj.n_atoms":
-        raise Untranslatable("compute_gyration_tensor return expression changed")
-    parts += ["(* mdtraj/geometry/shape.py: descriptors as functions of the ascending principal moments *)",
-              "Definition shape_asphericity (l0 l1 l2 : Q) : Q := %s." % b,
-              "Definition shape_acylindricity (l0 l1 l2 : Q) : Q := %s." % c,
-              "Definition shape_kappa2 (l0 l1 l2 : Q) : Q := %s." % k, ""]
-    # --- moments.cpp
-    parts += [translate_moments(_src("mdtraj/geometry/src/moments.cpp")), ""]
+    return ["(* mdtraj/geometry/shape.py: descriptors as functions of the ascending principal moments *)",
+            "Definition shape_asphericity (l0 l1 l2 : Q) : Q := %s." % b,
+            "Definition shape_acylindricity (l0 l1 l2 : Q) : Q := %s." % c,
+            "Definition shape_kappa2 (l0 l1 l2 : Q) : Q := %s." % k]
+
+
+def blk_moments():
+    return translate_moments(_src("mdtraj/geometry/src/moments.cpp")).split("\n")
+
+
+# Hand-maintained reference copy of every block (the text the translator produced for the pinned tree).  When a
+# block of the current source is outside the translator's grammar, the reference stands in for it (the run is
+# recorded as `translator: degraded` and the tie for that block is the correspondence alone).
+REFERENCE = {
+    "karplus": ["(* reference copy: _J3_function *)",
+                "Definition j3_function (A B C c : Q) : Q := (((A * (c ^ 2)) + (B * c)) + C)."],
+    "rdf": ["(* reference copy: compute_rdf blocks *)",
+            "Definition rdf_shell_volume (pi lo hi : Q) : Q := ((((Qmake (4) 1) / (Qmake (3) 1)) * pi) * ((hi ^ 3) - (lo ^ 3))).",
+            "Definition rdf_bin_centre (lo hi : Q) : Q := ((Qmake (1) 2) * (hi + lo)).",
+            "Definition rdf_norm (npairs sum_inv_vol V : Q) : Q := ((npairs * sum_inv_vol) * V).",
+            "Definition rdf_nbins_quotient (r0 r1 bw : Q) : Q := ((r1 - r0) / bw)."],
+    "density": ["(* reference copy: density *)",
+                "Definition density_conversion : Q := (Qmake (16605387823355087) 10000000000000000).",
+                "Definition density_formula (mass volume : Q) : Q := (((mass / volume)) * density_conversion)."],
+    "shape": ["(* reference copy: shape descriptors *)",
+              "Definition shape_asphericity (l0 l1 l2 : Q) : Q := (l2 - ((l0 + l1) / (Qmake (2) 1))).",
+              "Definition shape_acylindricity (l0 l1 l2 : Q) : Q := (l1 - l0).",
+              "Definition shape_kappa2 (l0 l1 l2 : Q) : Q := ((((Qmake (3) 2) * (l0 ^ 2 + l1 ^ 2 + l2 ^ 2)) / ((l0 + l1 + l2) ^ 2)) - (Qmake (1) 2))."],
+    "moments": ["(* reference copy: moments.cpp *)",
+                "Definition moments_push (s : Q * Q * Q * Q) (x : Q) : Q * Q * Q * Q :=",
+                "  let '(n, u, m2, m3) := s in",
+                "  let n1_1 := n in",
+                "  let f_n_1 := (n + (Qmake (1) 1)) in",
+                "  let delta_1 := (x - u) in",
+                "  let delta_n_1 := (delta_1 / f_n_1) in",
+                "  let term1_1 := ((delta_1 * delta_n_1) * n1_1) in",
+                "  let f_u_1 := (u + delta_n_1) in",
+                "  let f_m3_1 := (m3 + (((term1_1 * delta_n_1) * (f_n_1 - (Qmake (2) 1))) - (((Qmake (3) 1) * delta_n_1) * m2))) in",
+                "  let f_m2_1 := (m2 + term1_1) in",
+                "  (f_n_1, f_u_1, f_m2_1, f_m3_1).",
+                "Definition moments_mean (s : Q * Q * Q * Q) : Q := let '(n, u, m2, m3) := s in u.",
+                "Definition moments_second (s : Q * Q * Q * Q) : Q := let '(n, u, m2, m3) := s in (m2 / n).",
+                "Definition moments_third (s : Q * Q * Q * Q) : Q := let '(n, u, m2, m3) := s in (m3 / n).",
+                "Definition moments_init : Q * Q * Q * Q := ((Qmake (0) 1), (Qmake (0) 1), (Qmake (0) 1), (Qmake (0) 1))."],
+}
+BLOCKS = [("karplus", blk_karplus), ("rdf", blk_rdf), ("density", blk_density), ("shape", blk_shape),
+          ("moments", blk_moments)]
+
+
+def build_formulas(degraded=None):
+    parts = ["(* GENERATED by harness/props/C16.py:translate from /repo -- do not edit. *)",
+             "From Coq Require Import QArith.", "Local Open Scope Q_scope.", ""]
+    for name, fn in BLOCKS:
+        try:
+            parts += fn() + [""]
+        except (Untranslatable, OSError, SyntaxError, AttributeError, KeyError) as e:
+            if degraded is None:
+                raise
+            degraded.append("%s: %s" % (name, e))
+            parts += REFERENCE[name] + [""]
     return "\n".join(parts) + "\n"
 
 
@@ -412,13 +464,26 @@ def build_formulas_r():
 
 
 def translate(ctx):
-    t = build_tables()
-    f = build_formulas()
-    fr = build_formulas_r()
-    ctx.write_gen("Gen/DescTables.v", t)
+    degraded = []
+    f = build_formulas(degraded)
     ctx.write_gen("Gen/DescFormulas.v", f)
-    ctx.write_gen("Gen/DescFormulasR.v", fr)
-    ctx.notes.setdefault("coverage_extra", {})["translator"] = "ok: Gen/DescTables.v, Gen/DescFormulas.v regenerated"
+    try:
+        ctx.write_gen("Gen/DescFormulasR.v", build_formulas_r())
+    except (Untranslatable, OSError, SyntaxError) as e:
+        degraded.append("karplus(R): %s" % e)
+        ctx.write_gen("Gen/DescFormulasR.v", "\n".join([
+            "(* reference copy *)", "From Coq Require Import Reals.", "Local Open Scope R_scope.",
+            "Definition j3_function_R (phi A B C phi0 : R) : R := "
+            "(((A * ((cos (phi + phi0)) ^ 2)) + (B * (cos (phi + phi0)))) + C).", ""]))
+    try:
+        ctx.write_gen("Gen/DescTables.v", build_tables())
+    except (Untranslatable, OSError, SyntaxError, AttributeError) as e:
+        degraded.append("tables (previous Gen/DescTables.v kept): %s" % e)
+    ctx.notes.setdefault("coverage_extra", {})["translator"] = (
+        "ok: Gen/DescTables.v, Gen/DescFormulas.v, Gen/DescFormulasR.v regenerated" if not degraded
+        else "degraded, reference copy used for: " + "; ".join(degraded))
+    if degraded:
+        raise Untranslatable("; ".join(degraded))
 
 
 # =====================================================================================
@@ -605,10 +670,11 @@ ERRCODES = [(r"No acceptable residue pairs", "ENoPairs"), (r"not in the permitte
 
 def gen_contacts_case(rng, i):
     n_res = rng.randint(4, 9)
-    top = gen_topology(rng, n_res, p_odd=rng.choice([0.0, 0.25, 0.5]), p_twoca=0.03 if i % 7 == 3 else 0.0)
+    scheme = SCHEMES[i % 5]
+    top = gen_topology(rng, n_res, p_odd=rng.choice([0.0, 0.25, 0.5]),
+                       p_twoca=0.12 if (scheme == "ca" and (i // 5) % 3 == 0) else (0.03 if i % 7 == 3 else 0.0))
     na = top_natoms(top)
     nf = rng.randint(1, 2)
-    scheme = SCHEMES[i % 5]
     case = {"kind": "contacts", "top": top, "unit": UNIT, "xyz": gen_xyz(rng, nf, na),
             "box": gen_box(rng) if rng.random() < 0.6 else None, "periodic": rng.random() < 0.7,
             "scheme": scheme, "soft_min": (i // 5) % 3 == 2, "beta": None, "squareform": rng.random() < 0.4}
@@ -1345,7 +1411,9 @@ def fixed_probes():
     gly = ["GLY", 0, [["N", "N"], ["CA", "C"], ["C", "C"], ["O", "O"]]]
     hoh = ["HOH", 0, [["O", "O"], ["H1", "H"], ["H2", "H"]]]
     top = [ala, gly, hoh, ala, ala]
-    xyz = [[[13 * (3 * a + k) % 97 + 7 * a for k in range(3)] for a in range(top_natoms(top))]]
+    def mkxyz(n):
+        return [[[13 * (3 * a + k) % 97 + 7 * a for k in range(3)] for a in range(n)]]
+    xyz = mkxyz(top_natoms(top))
     base = {"kind": "contacts", "top": top, "unit": UNIT, "xyz": xyz, "box": None, "periodic": False,
             "beta": None, "squareform": True}
     out = [dict(base, scheme="ca", contacts=[[0, 3], [0, 2], [1, 4]], as_array=True, soft_min=False),
@@ -1354,6 +1422,10 @@ def fixed_probes():
            dict(base, scheme="sidechain", contacts=[[0, 3], [0, 1]], as_array=False, soft_min=False),
            dict(base, scheme="closest", contacts=[[0, 1], [0, 4]], as_array=False, soft_min=True),
            dict(base, scheme="closest-heavy", contacts="all", soft_min=False),
+           dict(base, top=[ala, ["ALA", 0, [["N", "N"], ["CA", "C"], ["ca", "C"], ["C", "C"]]], gly, ala, ala],
+                xyz=mkxyz(23), scheme="ca", contacts=[[0, 3], [1, 4]], as_array=False, soft_min=False),
+           dict(base, top=[ala, ["ALA", 0, [["N", "N"], ["CA", "C"], ["ca", "C"], ["C", "C"]]], hoh, ala, ala],
+                xyz=mkxyz(22), scheme="ca", contacts=[[0, 3], [1, 2]], as_array=False, soft_min=False),
            dict(base, scheme="sidechain-heavy", contacts="all", soft_min=False, ignore_nonprotein=False)]
     two = [["NA", 0, [["NA", "Na"]]], ["CL", 0, [["CL", "Cl"]]]]
     out.append({"kind": "rg", "top": two, "unit": UNIT, "xyz": [[[0, 0, 0], [256, 0, 0]]], "box": None,
